@@ -66,8 +66,8 @@ func New(capacity int, period time.Duration) Limiter {
 						req.done <- errs.New("Limiter is closed")
 						continue
 					}
-					if req.amount > req.limiter.capacity {
-						req.done <- errs.Newf("Amount (%d) is greater than capacity (%d)", req.amount, req.limiter.capacity)
+					if capacity := req.limiter.effectiveCap(); req.amount > capacity {
+						req.done <- errs.Newf("Amount (%d) is greater than capacity (%d)", req.amount, capacity)
 						continue
 					}
 					if c.root.capacity-c.root.used > 0 {
@@ -141,6 +141,18 @@ func (l *limiter) Cap(applyParentCaps bool) int {
 	return capacity
 }
 
+// effectiveCap returns the smallest capacity among this limiter and its ancestors: no more than that can ever be granted
+// to a single request. The controller's lock must be held.
+func (l *limiter) effectiveCap() int {
+	capacity := l.capacity
+	for p := l.parent; p != nil; p = p.parent {
+		if p.capacity < capacity {
+			capacity = p.capacity
+		}
+	}
+	return capacity
+}
+
 func (l *limiter) SetCap(capacity int) {
 	l.controller.lock.Lock()
 	l.capacity = max(capacity, 0)
@@ -170,8 +182,7 @@ func (l *limiter) Use(amount int) <-chan error {
 		done <- nil
 		return done
 	}
-	if amount > l.capacity {
-		capacity := l.capacity
+	if capacity := l.effectiveCap(); amount > capacity {
 		l.controller.lock.Unlock()
 		done <- errs.Newf("Amount (%d) is greater than capacity (%d)", amount, capacity)
 		return done
